@@ -105,6 +105,7 @@ func main() {
 				continue
 			}
 			relf, _ := filepath.Rel(*repo, name)
+			scanUnsimulated(p, f, relf)
 			touched := false
 			switch *mode {
 			case "c11", "scan":
@@ -181,6 +182,12 @@ func main() {
 	for _, s := range skipped {
 		fmt.Printf("UNREWRITTEN %s\n", s)
 	}
+	sort.Strings(unsim)
+	for i, u := range unsim {
+		if i == 0 || u != unsim[i-1] {
+			fmt.Printf("UNSIM %s\n", u)
+		}
+	}
 	if len(skipped) > 0 && *mode == "c07" {
 		fmt.Fprintln(os.Stderr, "simrewrite: concurrency constructs the schedule mode cannot simulate:", strings.Join(skipped, "; "))
 		os.Exit(3)
@@ -193,6 +200,76 @@ func main() {
 			}
 		}
 	}
+}
+
+// scanUnsimulated lists constructs that bring in nondeterminism which the
+// simulator has no seam for in the given package (the worlds compare the list
+// with a committed baseline and say so when the tree under test has new ones).
+var unsim []string
+
+func scanUnsimulated(p *packages.Package, f *ast.File, relf string) {
+	rel := pkgRel(p)
+	fnName := func(n ast.Node) string {
+		path, _ := astutil.PathEnclosingInterval(f, n.Pos(), n.End())
+		for _, x := range path {
+			if fd, ok := x.(*ast.FuncDecl); ok {
+				return fd.Name.Name
+			}
+		}
+		return "?"
+	}
+	add := func(kind string, n ast.Node) {
+		unsim = append(unsim, fmt.Sprintf("%s %s.%s", kind, rel, fnName(n)))
+	}
+	ast.Inspect(f, func(n ast.Node) bool {
+		switch x := n.(type) {
+		case *ast.GoStmt:
+			add("go-statement", x)
+		case *ast.SelectStmt:
+			add("select", x)
+		case *ast.CallExpr:
+			if sel, ok := x.Fun.(*ast.SelectorExpr); ok {
+				if id, ok := sel.X.(*ast.Ident); ok {
+					if pn, ok := p.TypesInfo.Uses[id].(*types.PkgName); ok {
+						full := pn.Imported().Path() + "." + sel.Sel.Name
+						switch full {
+						case "runtime.SetFinalizer", "runtime.AddCleanup", "time.Now", "time.Since", "time.After", "time.Sleep", "time.NewTimer", "time.AfterFunc", "time.Tick",
+							"os.Getenv", "os.Hostname", "os.Getpid", "os.Open", "os.Stat", "os.ReadFile", "os.ReadDir", "io/ioutil.ReadFile", "io/ioutil.ReadDir", "plugin.Open",
+							"runtime.GC", "runtime.NumGoroutine", "runtime.NumCPU", "runtime.GOMAXPROCS":
+							add(full, x)
+						}
+						if strings.HasPrefix(full, "math/rand.") || strings.HasPrefix(full, "math/rand/v2.") || strings.HasPrefix(full, "crypto/rand.") {
+							add(full, x)
+						}
+					}
+				}
+			}
+		case *ast.CompositeLit, *ast.ValueSpec, *ast.Field:
+			// declarations of sync.WaitGroup / sync.Map / sync.Once / sync.Cond / sync.Pool values
+			var te ast.Expr
+			switch y := x.(type) {
+			case *ast.CompositeLit:
+				te = y.Type
+			case *ast.ValueSpec:
+				te = y.Type
+			case *ast.Field:
+				te = y.Type
+			}
+			if te != nil {
+				if tv, ok := p.TypesInfo.Types[te]; ok {
+					ts := tv.Type.String()
+					switch ts {
+					case "sync.WaitGroup", "sync.Map", "sync.Once", "sync.Cond", "sync.Pool", "*sync.Cond":
+						add("decl:"+ts, x)
+					}
+					if strings.HasPrefix(ts, "chan ") || strings.HasPrefix(ts, "<-chan ") || strings.HasPrefix(ts, "chan<- ") {
+						add("decl:chan", x)
+					}
+				}
+			}
+		}
+		return true
+	})
 }
 
 func fatal(err error) {
@@ -313,42 +390,39 @@ func rewriteLocks(p *packages.Package, f *ast.File, relf string, sites *[]site) 
 		if !ok {
 			return true
 		}
-		var fn string
-		switch sel.Sel.Name {
-		case "Lock":
-			fn = "Lock"
-		case "Unlock":
-			fn = "Unlock"
-		case "RLock":
-			fn = "RLock"
-		case "RUnlock":
-			fn = "RUnlock"
-		default:
+		helper := map[string]string{"Lock": "LockL", "Unlock": "UnlockL", "RLock": "RLockL", "RUnlock": "RUnlockL"}[sel.Sel.Name]
+		if helper == "" {
+			return true
+		}
+		// the method must be sync.(*Mutex).X or sync.(*RWMutex).X — called directly or promoted
+		// through an embedded field (struct{ sync.Mutex; ... })
+		selection := p.TypesInfo.Selections[sel]
+		if selection == nil {
+			return true
+		}
+		fn, ok := selection.Obj().(*types.Func)
+		if !ok || fn.Pkg() == nil || fn.Pkg().Path() != "sync" {
+			return true
+		}
+		recv := fn.Type().(*types.Signature).Recv()
+		if recv == nil {
+			return true
+		}
+		if isM, _ := isMutex(recv.Type()); !isM {
 			return true
 		}
 		tv, ok := p.TypesInfo.Types[sel.X]
 		if !ok {
 			return true
 		}
-		isM, isRW := isMutex(tv.Type)
-		if !isM {
-			return true
-		}
-		if (fn == "RLock" || fn == "RUnlock") && !isRW {
-			return true
-		}
 		id := pos(p, relf, call)
 		*sites = append(*sites, site{ID: id, Rule: "R3", Pkg: pkgRel(p)})
 		n++
 		var arg ast.Expr = sel.X
-		if _, isPtr := tv.Type.(*types.Pointer); !isPtr {
+		if _, isPtr := tv.Type.Underlying().(*types.Pointer); !isPtr {
 			arg = &ast.UnaryExpr{Op: token.AND, X: sel.X}
 		}
-		name := fn
-		if isRW {
-			name = "RW" + fn
-		}
-		call.Fun = &ast.SelectorExpr{X: ast.NewIdent("verifsimrt"), Sel: ast.NewIdent(name)}
+		call.Fun = &ast.SelectorExpr{X: ast.NewIdent("verifsimrt"), Sel: ast.NewIdent(helper)}
 		call.Args = []ast.Expr{&ast.BasicLit{Kind: token.STRING, Value: fmt.Sprintf("%q", id)}, arg}
 		return true
 	}, nil)
@@ -753,6 +827,62 @@ func Lock(site string, m *sync.Mutex) {
 
 func Unlock(site string, m *sync.Mutex) {
 	m.Unlock()
+	if h := UnlockHook; h != nil {
+		h(site)
+	}
+}
+
+// Interface-based variants: they also serve locks reached through an embedded
+// sync.Mutex / sync.RWMutex (struct{ sync.Mutex; ... }).
+type locker interface {
+	Lock()
+	TryLock() bool
+	Unlock()
+}
+
+type rlocker interface {
+	RLock()
+	TryRLock() bool
+	RUnlock()
+}
+
+func LockL(site string, m locker) {
+	if h := LockHook; h != nil {
+		h(site)
+	}
+	if BlockedHook == nil {
+		m.Lock()
+		acquired(site)
+		return
+	}
+	for !m.TryLock() {
+		BlockedHook(site)
+	}
+	acquired(site)
+}
+
+func UnlockL(site string, m locker) {
+	m.Unlock()
+	if h := UnlockHook; h != nil {
+		h(site)
+	}
+}
+
+func RLockL(site string, m rlocker) {
+	if h := LockHook; h != nil {
+		h(site)
+	}
+	if BlockedHook == nil {
+		m.RLock()
+		return
+	}
+	for !m.TryRLock() {
+		BlockedHook(site)
+	}
+}
+
+func RUnlockL(site string, m rlocker) {
+	m.RUnlock()
 	if h := UnlockHook; h != nil {
 		h(site)
 	}
